@@ -24,8 +24,23 @@ def run(R):
     # ---------------------------------------------------------------- R1 nothing accepted after the broadcast
     R.describe('C13.R1', 'serve_internal: no accept / MakeSvc::call / serve_connection is reachable after watch::Sender::send; the send is on the graceful edge')
     send = None
+    host, host_call = si, None
     with R.guard('C13.R1'):
         sends = [(bb, t) for bb, t in si.calls(pat='watch::Sender', name='send')]
+        if not sends:
+            # the drain phase may live in an async helper extracted later (not a function of the pinned tree) that serve_internal awaits
+            kn = mirlib.known_fns().get('tonic', set())
+            for ab_, ai_, ap_, aa_, aops_ in mirlib.aggregates(si):
+                if aa_.get('kind') != 'coroutine' or not aa_.get('def'):
+                    continue
+                fnp = aa_['def'].rsplit('::{closure#0}', 1)[0]
+                co = [x for x in tonic.bodies if x.kind == 'coroutine' and x.path == aa_['def']]
+                if fnp.startswith('tonic::') and fnp not in kn and co and co[0].calls(pat='watch::Sender', name='send'):
+                    host = co[0]
+                    host_call = (ab_, {'caps': {n_: si.origin(o_) for n_, o_ in zip(aa_.get('fields') or [], aops_)}})
+                    sends = [(ab_, None)]
+                    R.saw(host)
+                    R.note('the drain phase (send / drop / closed) is in the awaited helper %s' % fnp)
         if len(sends) != 1:
             raise CheckError('ANCHOR-MISSING: watch::Sender::send in serve_internal (%d sites)' % len(sends))
         send = sends[0]
@@ -73,27 +88,45 @@ def run(R):
     # ---------------------------------------------------------------- R2 order on the graceful edge
     R.describe('C13.R2', 'graceful edge: send -> drop(own receiver) -> closed().await -> return, on every path; the non-graceful edge returns without waiting')
     with R.guard('C13.R2'):
-        drops = [(bb, t) for bb, t in si.calls(pat='mem::drop') if any('watch::Receiver' in g for g in t.get('ga', []))]
-        R.check(len(drops) == 1, 'C13.R2', 'own-receiver-dropped', site(si), 'drop::<watch::Receiver<()>> sites: %d (without it closed() never resolves)' % len(drops))
-        closed = [(bb, t) for bb, t in si.calls(pat='watch::Sender', name='closed')]
-        R.check(len(closed) == 1, 'C13.R2', 'closed-awaited', site(si), 'Sender::closed sites: %d' % len(closed))
-        rets = si.return_blocks()
-        if drops and closed and send:
-            R.check(si.dominates(send[0], drops[0][0]) and si.dominates(drops[0][0], closed[0][0]), 'C13.R2', 'order:send<drop<closed', site(si, closed[0][0]), 'send dominates drop(receiver) dominates closed()')
+        hb = host
+        hsend = send if host is si else (hb.calls(pat='watch::Sender', name='send') or [None])[0]
+
+        def from_channel(body_, term_, want_clone=False):
+            """does the value come from the watch::channel made in serve_internal (through the helper's parameter when hosted)"""
+            if body_ is si:
+                return term_contains(term_, lambda x: is_call(x, pat='watch::channel')) and (want_clone or not term_contains(term_, lambda x: is_call(x, name='clone')))
+            caps = host_call[1]['caps']
+            envs = find_terms(term_, lambda x: isinstance(x, tuple) and len(x) == 3 and x[0] == 'field' and x[1] in (('env',), ('deref', ('env',))))
+            if not envs or envs[0][2] not in caps:
+                return False
+            a_ = caps[envs[0][2]]
+            return term_contains(a_, lambda x: is_call(x, pat='watch::channel')) and not term_contains(a_, lambda x: is_call(x, name='clone'))
+        drops = [(bb, t) for bb, t in hb.calls(pat='mem::drop') if any('watch::Receiver' in g for g in t.get('ga', []))]
+        R.check(len(drops) == 1, 'C13.R2', 'own-receiver-dropped', site(hb), 'drop::<watch::Receiver<()>> sites: %d (without it closed() never resolves)' % len(drops))
+        closed = [(bb, t) for bb, t in hb.calls(pat='watch::Sender', name='closed')]
+        R.check(len(closed) == 1, 'C13.R2', 'closed-awaited', site(hb), 'Sender::closed sites: %d' % len(closed))
+        rets = hb.return_blocks()
+        if drops and closed and hsend:
+            R.check(hb.dominates(hsend[0], drops[0][0]) and hb.dominates(drops[0][0], closed[0][0]), 'C13.R2', 'order:send<drop<closed', site(hb, closed[0][0]), 'send dominates drop(receiver) dominates closed()')
             # the drop is of the receiver created with the channel, not of a clone
-            dv = si.origin(drops[0][1]['args'][0])
-            R.check(term_contains(dv, lambda x: is_call(x, pat='watch::channel')) and not term_contains(dv, lambda x: is_call(x, name='clone')), 'C13.R2', 'drops-the-original-receiver', site(si, drops[0][0]), 'dropped value = %s' % show(dv)[:80])
-            ys = [bb for bb in si.reachable(closed[0][0]) if si.term(bb)['k'] == 'yield']
-            R.check(bool(ys), 'C13.R2', 'closed-is-awaited', site(si, closed[0][0]), 'closed() is followed by an await point')
+            dv = hb.origin(drops[0][1]['args'][0])
+            R.check(from_channel(hb, dv), 'C13.R2', 'drops-the-original-receiver', site(hb, drops[0][0]), 'dropped value = %s' % show(dv)[:100])
+            ys = [bb for bb in hb.reachable(closed[0][0]) if hb.term(bb)['k'] == 'yield']
+            R.check(bool(ys), 'C13.R2', 'closed-is-awaited', site(hb, closed[0][0]), 'closed() is followed by an await point')
             for rb in rets:
-                R.check(si.must_pass(send[0], rb, [closed[0][0]]), 'C13.R2', 'every-graceful-path-waits', site(si, rb), 'every path from send to the return passes closed()')
+                R.check(hb.must_pass(hsend[0], rb, [closed[0][0]]), 'C13.R2', 'every-graceful-path-waits', site(hb, rb), 'every path from send to the return passes closed()')
+            if host is not si:
+                # the helper's future is awaited before serve_internal returns
+                ysi = [bb for bb in si.reachable(send[0]) if si.term(bb)['k'] == 'call' and si.term(bb).get('name') == 'poll' and 'Future::poll' in (si.term(bb).get('fn') or '')]
+                R.check(bool(ysi) and all(si.must_pass(send[0], rb, ysi) for rb in si.return_blocks() if rb in si.reachable(send[0])), 'C13.R2', 'every-graceful-path-waits:helper-awaited', site(si, send[0]), 'the drain helper is awaited on every path to the return')
             sw = [s for s, vals, tm in si.edge_guards(send[0]) if 'graceful' in show(tm) or (is_call(strip_refs(tm), name='is_some') and 'signal' in show(tm))]
             if sw:
                 other = [t_ for t_, vals in si.switch_edges(sw[-1]).items() if vals == [0]]
-                R.check(bool(other) and closed[0][0] not in si.reachable(other[0], removed={sw[-1]}), 'C13.R2', 'non-graceful-does-not-wait', site(si, sw[-1]), 'without a signal serve returns without awaiting closed()')
-            tx = si.origin(closed[0][1]['args'][0])
-            stx = si.origin(send[1]['args'][0])
-            R.check(term_contains(tx, lambda x: is_call(x, pat='watch::channel')) and term_contains(stx, lambda x: is_call(x, pat='watch::channel')), 'C13.R2', 'same-channel', site(si), 'send and closed act on the sender of the channel created here')
+                wait_site = closed[0][0] if host is si else send[0]
+                R.check(bool(other) and wait_site not in si.reachable(other[0], removed={sw[-1]}), 'C13.R2', 'non-graceful-does-not-wait', site(si, sw[-1]), 'without a signal serve returns without awaiting closed()')
+            tx = hb.origin(closed[0][1]['args'][0])
+            stx = hb.origin(hsend[1]['args'][0])
+            R.check(from_channel(hb, tx, True) and from_channel(hb, stx, True), 'C13.R2', 'same-channel', site(hb), 'send and closed act on the sender of the channel made in serve_internal')
         ch = si.calls(pat='watch::channel')
         R.check(len(ch) == 1, 'C13.R2', 'one-channel', site(si), 'watch::channel sites: %d' % len(ch))
 
@@ -103,7 +136,11 @@ def run(R):
         c = si.calls(name='serve_connection')
         if len(c) != 1:
             raise CheckError('ANCHOR-MISSING: serve_connection call in serve_internal (%d sites)' % len(c))
-        w = strip_refs(si.origin(c[0][1]['args'][3]))
+        sg = tonic.sig('transport::server::serve_connection')
+        wpos = [i_ for i_, ty_ in enumerate(sg['inputs']) if 'watch::Receiver<()>' in ty_]
+        if len(wpos) != 1:
+            raise CheckError('UNRECOGNISED: serve_connection has %d parameters holding a watch::Receiver' % len(wpos))
+        w = strip_refs(si.origin(c[0][1]['args'][wpos[0]]))
         okt = is_call(w, name='then') and ('graceful' in show(w[2][0]) or (is_call(strip_refs(w[2][0]), name='is_some') and 'signal' in show(w[2][0])))
         R.check(okt, 'C13.R3', 'watcher=graceful.then(..)', site(si, c[0][0]), 'watcher argument = %s' % show(w)[:100])
         if okt:
@@ -115,8 +152,7 @@ def run(R):
                 cl = [(bb, t) for bb, t in cb.calls(name='clone')]
                 okc = len(cl) == 1 and 'watch::Receiver' in ((cl[0][1].get('self_ty') or '') + (cl[0][1].get('resolved') or '')) and cl[0][1]['dest']['l'] == 0
             R.check(okc, 'C13.R3', 'closure-clones-receiver', site(si, c[0][0]), 'the closure returns signal_rx.clone(): %r' % okc)
-        sg = tonic.sig('transport::server::serve_connection')
-        R.check('Option<tokio::sync::watch::Receiver<()>>' in sg['inputs'][3], 'C13.R3', 'connection-takes-a-receiver', 'tonic/src/transport/server/mod.rs (serve_connection)', 'serve_connection watcher parameter type: %s' % sg['inputs'][3])
+        R.check('Option<tokio::sync::watch::Receiver<()>>' in sg['inputs'][wpos[0]], 'C13.R3', 'connection-takes-a-receiver', 'tonic/src/transport/server/mod.rs (serve_connection)', 'serve_connection watcher parameter type: %s' % sg['inputs'][wpos[0]])
         subs = [short(bd.path) for bd in tonic.bodies if 'transport::server' in bd.path for bb, t in bd.calls(name='subscribe')]
         R.check(not subs, 'C13.R3', 'no-late-subscribe', '', 'watch::Sender::subscribe calls in transport::server: %r (a receiver subscribed inside the task misses a signal sent before its first poll and is not counted by closed())' % subs)
 
@@ -205,7 +241,16 @@ def run(R):
             oks = v[0] == 'agg' and v[1].get('variant') == 'None' and ('inner' in show(fb.origin(t['args'][0])) or recv_place_fields(fb, t['args'][0])[-1:] == ['inner'])
         mp = fp.calls(pat='Poll', name='map')
         okm = len(mp) == 1 and is_call(strip_refs(fp.origin(mp[0][1]['args'][0])), name='poll') and mp[0][1]['dest']['l'] == 0
-        R.check(len(sets) == 1 and oks and okm, 'C13.R5', 'cleared-when-ready', site(fp), 'fut.poll(cx).map(|o| { inner.set(None); o }): set sites %d, clears inner %r, applied to the poll result %r' % (len(sets), oks, okm))
+        if not okm and len(sets) == 1 and sets[0][0] is fp:
+            # spelled out: let out = ready!(fut.poll(cx)); inner.set(None); Poll::Ready(out)  — the clearing set() is on the Ready edge of
+            # the poll and on every path from there to a return
+            sb_ = sets[0][1]
+            pol = [bb_ for bb_, t_ in fp.calls(name='poll') if 'Future::poll' in (t_.get('fn') or '')]
+            g_ = fp.edge_guards(sb_)
+            on_ready = any(tm[0] == 'discr' and is_call(strip_refs(tm[1]), name='poll') and vals == [0] and tm[2] and dict((a_, b_) for a_, b_ in tm[2]).get(0) == 'Ready' for s_, vals, tm in g_)
+            ready_rets = [bb_ for bb_, i_, p_, a_, o_ in mirlib.aggregates(fp, 'task::Poll', 'Ready') if p_['l'] == 0]
+            okm = len(pol) == 1 and on_ready and bool(ready_rets) and all(fp.dominates(sb_, rb_) for rb_ in ready_rets)
+        R.check(len(sets) == 1 and oks and okm, 'C13.R5', 'cleared-when-ready', site(fp), 'the slot is cleared exactly when the inner future returned Ready (fut.poll(cx).map(|o| { inner.set(None); o }) or the spelled-out form): set sites %d, clears inner %r, tied to the Ready result %r' % (len(sets), oks, okm))
         pend = [bb for bb in writers_of(fp, 0) if any(w[0] == 'variant' and w[2] == 'Pending' for w in block_writes(fp, bb, 0))]
         okp = any(any(tm[0] == 'discr' and vals in ([0], ['else']) and ('as_pin_mut' in show(tm) or 'inner' in show(tm)) for s, vals, tm in fp.edge_guards(bb)) for bb in pend)
         R.check(okp, 'C13.R5', 'empty-slot-pending', site(fp), 'None -> Poll::Pending: %r' % okp)
